@@ -48,6 +48,12 @@ def run(tier):
         scen.append({"shape": kn, "nproofs": s["shape"]["nproofs"],
                      "hash": "poseidon" if i % 3 == 2 else "blake2b",
                      "seed": rng.randrange(1 << 30), "bits": i < nbits})
+    # one small proof per transcript hash whose last byte is zero (found by re-proving with fresh blinding): dropping
+    # trailing bytes of such a proof must still be rejected
+    for h in ("blake2b", "poseidon"):
+        base = dict(scen[0]["shape"])
+        base.update({"k": 5, "ops": 0})
+        scen.append({"shape": base, "nproofs": 1, "hash": h, "seed": rng.randrange(1 << 30), "bits": False, "seek_zero_tail": True})
     # the standard library's own entry points (verify, batch_verify): byte-level plan on proofs of a small relation
     for i in range(2 if tier == "quick" else 12):
         scen.append({"stdlib": True, "seed": rng.randrange(1 << 20)})
